@@ -72,8 +72,14 @@ def one_case(c, tmp, idx):
     import xyzpy
     rng = c.rng
     kind_f = rng.choice(["Runner", "Runner", "Harvester", "Sampler"])
-    sw = R.Sweep(rng, with_cases=(rng.random() < 0.3 and kind_f != "Sampler"), max_args=3, max_vals=3, kind=0,
-                 allow_consts=False)
+    with_cases = rng.random() < 0.3 and kind_f != "Sampler"
+    sw = R.Sweep(rng, with_cases=with_cases, max_args=3, max_vals=3, kind=0, allow_consts=False)
+    if with_cases and rng.random() < 0.5:
+        # cases with a sub-grid over SEVERAL arguments (their order as given need not be alphabetical)
+        for _ in range(20):
+            sw = R.Sweep(rng, with_cases=True, max_args=4, max_vals=2, kind=0, allow_consts=False)
+            if len(sw.combo_args) >= 2:
+                break
     nv = rng.randint(1, 3)
     arrays = rng.random() < 0.45 and kind_f != "Sampler"
     kind = (20 if arrays else 10) + nv
